@@ -178,6 +178,10 @@ def run(ck, F, tier):
                 out += closures_of(x)
         return out
     seen_cl = set()
+    from ..transformer import StepReading, compare, Grid
+    from ..symx import NotEvaluable
+    from itertools import product
+    H = "<self.h>"
 
     def upstream_filters(d):
         """(filter kind, upstream description, closure) of every filter / filter_map stage in an iterator description"""
@@ -243,16 +247,22 @@ def run(ck, F, tier):
     srs = by_name(calls, "sort_by_random_sel")
     ok = len(cm) == 1 and cm[0]["vals"][1:] == [var("self.rng"), var("self.wc")] and len(srs) == 1 and srs[0]["vals"][1] == var("self.wc") and srs[0]["vals"][3] == var("self.rng")
     # Random policy: Err(NoAvailRows) exactly when fewer than wc rows could be chosen (early return or final if/else alike)
-    short = False
-    for gs, v in exits(t2, ret2, total=True):
-        if "NoAvailRows" in repr(v) and any(p and g.startswith("lt(") and "len(" in g and g.rstrip(")").endswith("self.wc") for g, p in gs):
-            short = True
+    # evaluated for every (number of rows chosen, wc): the Random policy fails exactly when fewer than wc rows could be chosen
+    short = True
+    try:
+        rdr = StepReading(t2, ret2, what="select_rows (Random)", ignore=lambda it: it["kind"] in ("call", "<assign>", "<try>"))
+        for L_, W_ in product(range(4), range(4)):
+            out_ = rdr.run(Grid({"self.wc": W_, "self.fill_policy": "Random", "self.wr": 3},
+                                {"len": lambda *a_, L_=L_: L_, "choose_multiple": lambda *a_: "SEL", "num_rows": lambda *a_: 5, "row_weight": lambda *a_: 0}))
+            failed = out_.exit == ("Err", "NoAvailRows")
+            okv = isinstance(out_.exit, tuple) and out_.exit[0] == "Ok"
+            if failed != (L_ < W_) or not (failed or okv):
+                short = False
+    except (NotEvaluable, AnalysisError, TypeError):
+        short = False
     okor = bool(by_name(calls, "ok_or")) or "NoAvailRows" in repr(ret)
     ck.inst("Q2", "select_rows:exactly-wc", ok and short and okor, b.span,
             "Random: choose_multiple(rng, wc) and Err(NoAvailRows) when fewer than wc were available; Uniform: sort_by_random_sel(wc, .., rng) or NoAvailRows")
-    from ..transformer import StepReading, compare, Grid
-    from itertools import product
-    H = "<self.h>"
     b, t, ret, calls = trace(F, MN + "try_insert_column", ["self"], expand_helpers="steps")
     ROWS = ("elems", "ROWS")
     pts = []
@@ -554,6 +564,28 @@ def run(ck, F, tier):
             eqsel = False
     ck.inst("Q4", "sort_by_random_min", ok and eqsel, b.span,
             "returns an element comparing Equal to the minimum: index chosen with the caller's rng among {j : compare(x_j, min) == Equal}; the element at that index is returned [%s %s]" % (ok, eqsel))
+    # sort_by_random_sel, degenerate requests: more items than there are -> None; zero items -> an empty selection
+    bs_, ts_, rets_, callss_ = trace(F, "<std::vec::Vec<T> as util::SortedRandomSel>::sort_by_random_sel", ["self", "nitems", "compare", "rng"])
+    deg_ok = True
+    whyd = ""
+    try:
+        rds = StepReading(ts_, rets_, what="sort_by_random_sel", ignore=lambda it: it["kind"] in ("<assign>",) or bool(it["loops"]))
+        for L_, N_ in product(range(3), range(4)):
+            if not (L_ < N_ or N_ == 0):
+                continue
+            out_ = rds.run(Grid({"nitems": N_, "self": "SELF"}, {"len": lambda *a_, L_=L_: L_, "mutated": lambda x_: x_}))
+            if L_ < N_:
+                good = out_.exit == "None"
+            else:
+                emptied = any(c_[0] in ("clear",) or (c_[0] in ("truncate",) and c_[-1] == 0) for c_ in out_.calls)
+                good = isinstance(out_.exit, tuple) and out_.exit[0] == "Some" and (emptied or "Vec::<T>::new" in str(out_.exit[1]))
+            if not good:
+                deg_ok, whyd = False, " ; with %d elements and nitems = %d the function gives %r after %r" % (L_, N_, out_.exit, out_.calls)
+                break
+    except (NotEvaluable, AnalysisError, TypeError) as ex:
+        deg_ok, whyd = False, " ; not evaluable: %s" % ex
+    ck.inst("Q4", "sort_by_random_sel:degenerate-requests", deg_ok, bs_.span,
+            "fewer elements than requested: None; nitems = 0: Some(empty) (the list is cleared before it is returned)" + whyd[:300])
     b, t, ret, calls = trace(F, "peg::Peg::run", ["self"])
     ie = by_name(calls, "insert_edge")
     ok = len(ie) == 1 and len(ie[0]["loops"]) == 2 and ie[0]["loops"][0][0] == "range" and ie[0]["loops"][0][2] == num(0) and ie[0]["loops"][0][3] == app(SM + "num_cols", var("self.h")) \
